@@ -189,12 +189,12 @@ def main(argv=None):
             ctx.fails[-1].path = path
     if not ctx.fails:
         mod.run(ctx)
-    for fid, what in sorted(ctx.known_hits.items()):
-        print("KNOWN-FINDING: property=%s %s [%s]" % (pid, what, fid), flush=True)
-    kw = ctx.ev.extra.pop("known_what", {})
-    for fid, what in sorted(kw.items()):
-        if fid not in ctx.known_hits:
-            print("KNOWN-FINDING: property=%s %s [%s]" % (pid, what, fid), flush=True)
+    ctx.ev.extra.pop("known_what", None)
+    allf = {f["id"]: f for f in findings.load()}
+    hit = set(ctx.known_hits) | set(k for k, v in ctx.ev.excluded_known.items() if v)
+    for fid in sorted(hit):
+        what = allf.get(fid, {}).get("what") or ctx.known_hits.get(fid, "")
+        print("KNOWN-FINDING: property=%s %s [%s; %d case(s) excluded this run]" % (pid, what.split(". ")[0][:300], fid, ctx.ev.excluded_known.get(fid, 0)), flush=True)
     nviol = len(ctx.fails)
     wall = time.time() - ctx.t0
     path = evidence.write(pid, tier, seed, mod.LEVEL, ctx.ev, mod.RULE, wall, nviol, mod.ASSUMPTIONS,
